@@ -19,9 +19,12 @@ Float instance of the same definitions is compared bit-for-bit with numba by the
 What is proved: the plain tally in full (every mutation on the edge above its node at its position,
 none above roots; per-edge counts; spans `right - left`; independence of the sample mask and of the
 order in which mutations at the same position are visited; agreement with `mutation_span_array`), and
-for the size-biased variant the `mutations_edge` output.  The size-biased *weights* and the singleton
-blocks (`phasing._block_singletons`) are NOT covered by a theorem here: see `C24_statement` and the
-harness (bit-exact correspondence of the size-biased model, naive per-tree oracle for both).
+for the size-biased variant `mutations_edge`, the *mutation weights* (each mutation weighted by the
+number of `mask` nodes at or below its node in the local tree at its position — for whatever mask is
+passed, i.e. the custom sample-set clause) and that the walk towards the root never reaches an
+impossible state.  The size-biased *span* weights and the singleton blocks
+(`phasing._block_singletons`) are NOT covered by a theorem here: see `C24_statement` and the harness
+(bit-exact correspondence of the size-biased model, naive per-tree oracle for both).
 -/
 import TsdateVerif.Proofs.CountMutMain
 
@@ -55,6 +58,28 @@ theorem children_below (T : Tables α) (N : Nat) (h : nodesBelowB T N = true) :
     decide_eq_true_eq] at h
   exact (h e he).2
 
+theorem parents_below (T : Tables α) (N : Nat) (h : nodesBelowB T N = true) :
+    ∀ e, e < T.numEdges → T.par e < N := by
+  intro e he
+  simp only [nodesBelowB, List.all_eq_true, List.mem_range, Bool.and_eq_true,
+    decide_eq_true_eq] at h
+  exact (h e he).1
+
+/-- the executable checks give the static facts the kernel proof uses (plain variant) -/
+theorem static_plain (T : Tables α) (N : Nat) (hV : validB T = true) (hO : noOverlapB T = true)
+    (hN : nodesBelowB T N = true) : Static T N false (fun _ => (0 : α)) :=
+  ⟨valid_of_validB T hV, noOverlap_of_B T hO, children_below T N hN, parents_below T N hN,
+    fun h => absurd h (by simp)⟩
+
+/-- … and for the size-biased variant, with node times making every parent older than its child -/
+theorem static_sized (T : Tables α) (N : Nat) (sb : Bool) (times : Array α) (hV : validB T = true)
+    (hO : noOverlapB T = true) (hN : nodesBelowB T N = true) (hT : timesOkB T times = true) :
+    Static T N sb (fun u => aget times u) := by
+  refine ⟨valid_of_validB T hV, noOverlap_of_B T hO, children_below T N hN, parents_below T N hN, ?_⟩
+  intro _ e he
+  simp only [timesOkB, List.all_eq_true, List.mem_range, decide_eq_true_eq] at hT
+  exact hT e he
+
 /-- **The plain tally is exact** (`count_plain_spec` + `span_plain` of the design).  On valid tables
 `_count_mutations(size_biased=False)` terminates without reaching an impossible state and
 * `mutations_edge[m] = e` exactly when `e` is the edge whose child is the mutation's node and which
@@ -71,29 +96,60 @@ theorem count_plain_spec (T : Tables α) (M : Muts α) (isSample : Array Bool)
         aget s.edgeMuts e =
           (((List.range M.node.size).countP fun m => decide (Above T M m e) : Nat) : α) ∧
         aget s.edgeSpan e = T.r e - T.l e) := by
-  obtain ⟨s, hs, h1, h2⟩ := countWith_correct T M isSample false (argsort M) (valid_of_validB T hV)
-    (noOverlap_of_B T hO) (children_below T _ hN) (argsort_valid M _ hM)
-  exact ⟨s, hs, (h2 rfl).1, h1, (h2 rfl).2⟩
+  obtain ⟨s, hs, herr, h1, h2, h3⟩ := countWith_correct T M isSample false (argsort M) _
+    (static_plain T _ hV hO hN) (argsort_valid M _ hM)
+  refine ⟨s, hs, herr, h1, fun e he => ⟨?_, h3 rfl e he⟩⟩
+  rw [h2 e he]
+  simp only [wt, Bool.false_eq_true, if_false]
+  exact sum_indicator _ _
 
-/-- **`mutations_edge` is the same exact map in the size-biased variant** (and for any sample
-mask): the frequency weighting changes weights, never which edge a mutation is counted on. -/
-theorem mutations_edge_spec (T : Tables α) (M : Muts α) (isSample : Array Bool) (sb : Bool)
+/-- **The frequency-weighted mutation tally is exact, for whatever sample set is passed.**  With
+`size_biased=True` and any mask `node_is_sample` (the default one or a custom one), on valid tables
+whose node times make every parent older than its child, the kernel terminates, the walk towards the
+root never reaches an impossible state (`err = false`: it neither runs out of its `N + 1` steps nor
+meets a parent without an edge), `mutations_edge` is the same exact map as in the plain variant, and
+`edges_mutations[e]` is the sum, over the mutations whose edge is `e`, of the number of `mask` nodes at
+or below the mutation's node in the local tree at the mutation's position
+(`samplesBelow T mask pos u`: nodes `v` with `mask[v]` from which `u` is reached by following parent
+pointers of the tree at `pos`). -/
+theorem count_sizebiased_weights (T : Tables α) (M : Muts α) (mask : Array Bool) (times : Array α)
     (hV : validB T = true) (hO : noOverlapB T = true)
-    (hN : nodesBelowB T isSample.size = true) (hM : mutsOkB M isSample.size = true) :
+    (hN : nodesBelowB T mask.size = true) (hM : mutsOkB M mask.size = true)
+    (hT : timesOkB T times = true) :
+    ∃ s, countMutations T M mask true = some s ∧ s.err = false ∧
+      (∀ m, m < M.node.size → ∀ e, aget s.mutEdge m = some e ↔ Above T M m e) ∧
+      (∀ e, e < T.numEdges → aget s.edgeMuts e =
+        ((List.range M.node.size).map fun m =>
+          if Above T M m e then (samplesBelow T mask (aget M.pos m) (aget M.node m) : α) else 0).sum) := by
+  obtain ⟨s, hs, herr, h1, h2, _⟩ := countWith_correct T M mask true (argsort M) _
+    (static_sized T _ true times hV hO hN hT) (argsort_valid M _ hM)
+  refine ⟨s, hs, herr, h1, fun e he => ?_⟩
+  rw [h2 e he]
+  simp only [wt, if_true]
+
+/-- **`mutations_edge` is the same exact map in both variants** (and for any sample mask): the
+frequency weighting changes weights, never which edge a mutation is counted on. -/
+theorem mutations_edge_spec (T : Tables α) (M : Muts α) (isSample : Array Bool) (sb : Bool)
+    (times : Array α)
+    (hV : validB T = true) (hO : noOverlapB T = true)
+    (hN : nodesBelowB T isSample.size = true) (hM : mutsOkB M isSample.size = true)
+    (hT : timesOkB T times = true) :
     ∃ s, countMutations T M isSample sb = some s ∧
       (∀ m, m < M.node.size → ∀ e, aget s.mutEdge m = some e ↔ Above T M m e) := by
-  obtain ⟨s, hs, h1, _⟩ := countWith_correct T M isSample sb (argsort M) (valid_of_validB T hV)
-    (noOverlap_of_B T hO) (children_below T _ hN) (argsort_valid M _ hM)
+  obtain ⟨s, hs, _, h1, _⟩ := countWith_correct T M isSample sb (argsort M) _
+    (static_sized T _ sb times hV hO hN hT) (argsort_valid M _ hM)
   exact ⟨s, hs, h1⟩
 
 /-- **Mutations above roots count on no edge**: if no edge covers the mutation's position with the
 mutation's node as child, `mutations_edge[m]` is `NULL` (both variants). -/
 theorem root_mutation_null (T : Tables α) (M : Muts α) (isSample : Array Bool) (sb : Bool)
+    (times : Array α)
     (hV : validB T = true) (hO : noOverlapB T = true)
     (hN : nodesBelowB T isSample.size = true) (hM : mutsOkB M isSample.size = true)
+    (hT : timesOkB T times = true)
     (m : Nat) (hm : m < M.node.size) (hroot : ∀ e, ¬ Above T M m e) :
     ∃ s, countMutations T M isSample sb = some s ∧ aget s.mutEdge m = none := by
-  obtain ⟨s, hs, h1⟩ := mutations_edge_spec T M isSample sb hV hO hN hM
+  obtain ⟨s, hs, h1⟩ := mutations_edge_spec T M isSample sb times hV hO hN hM hT
   refine ⟨s, hs, ?_⟩
   cases h : aget s.mutEdge m with
   | none => rfl
@@ -109,10 +165,10 @@ theorem order_irrelevant (T : Tables α) (M : Muts α) (isSample : Array Bool) (
       (∀ m, m < M.node.size → aget s1.mutEdge m = aget s2.mutEdge m) ∧
       (∀ e, e < T.numEdges → aget s1.edgeMuts e = aget s2.edgeMuts e ∧
         aget s1.edgeSpan e = aget s2.edgeSpan e) := by
-  obtain ⟨s1, hs1, a1, b1⟩ := countWith_correct T M isSample false o1 (valid_of_validB T hV)
-    (noOverlap_of_B T hO) (children_below T _ hN) h1
-  obtain ⟨s2, hs2, a2, b2⟩ := countWith_correct T M isSample false o2 (valid_of_validB T hV)
-    (noOverlap_of_B T hO) (children_below T _ hN) h2
+  obtain ⟨s1, hs1, _, a1, c1, b1⟩ := countWith_correct T M isSample false o1 _
+    (static_plain T _ hV hO hN) h1
+  obtain ⟨s2, hs2, _, a2, c2, b2⟩ := countWith_correct T M isSample false o2 _
+    (static_plain T _ hV hO hN) h2
   refine ⟨s1, s2, hs1, hs2, ?_, ?_⟩
   · intro m hm
     cases h : aget s1.mutEdge m with
@@ -124,9 +180,7 @@ theorem order_irrelevant (T : Tables α) (M : Muts α) (isSample : Array Bool) (
         have := (a1 m hm e).mpr ((a2 m hm e).mp h')
         rw [h] at this; exact absurd this (by simp)
   · intro e he
-    have c1 := (b1 rfl).2 e he
-    have c2 := (b2 rfl).2 e he
-    exact ⟨by rw [c1.1, c2.1], by rw [c1.2, c2.2]⟩
+    exact ⟨by rw [c1 e he, c2 e he], by rw [b1 rfl e he, b2 rfl e he]⟩
 
 /-- **The plain tally does not depend on the sample set passed** (`node_is_sample` only matters for
 the frequency weights). -/
@@ -146,33 +200,8 @@ theorem plain_ignores_sample_set (T : Tables α) (M : Muts α) (mask1 mask2 : Ar
 /-- The executable specification printed by the driver (`specEdge`, first matching edge) is the
 edge above the mutation: there is at most one. -/
 theorem specEdge_iff (T : Tables α) (M : Muts α) (hO : noOverlapB T = true) (m e : Nat) :
-    specEdge T M m = some e ↔ Above T M m e := by
-  have hNO := noOverlap_of_B T hO
-  have hp : ∀ e', (T.chi e' == aget M.node m && activeAt T (aget M.pos m) e') = true ↔
-      (T.chi e' = aget M.node m ∧ T.l e' ≤ aget M.pos m ∧ aget M.pos m < T.r e') := by
-    intro e'; simp [activeAt]
-  unfold specEdge
-  rw [List.find?_eq_some_iff_append]
-  constructor
-  · rintro ⟨hpe, as, bs, hsplit, _⟩
-    have : e ∈ List.range T.numEdges := by rw [hsplit]; simp
-    exact ⟨List.mem_range.mp this, ((hp e).mp hpe).1, ((hp e).mp hpe).2.1, ((hp e).mp hpe).2.2⟩
-  · rintro ⟨heE, h1, h2, h3⟩
-    refine ⟨(hp e).mpr ⟨h1, h2, h3⟩, ?_⟩
-    obtain ⟨as, bs, hsplit⟩ := List.append_of_mem (List.mem_range.mpr heE)
-    refine ⟨as, bs, hsplit, ?_⟩
-    intro a ha
-    have hnd : (as ++ e :: bs).Nodup := hsplit ▸ List.nodup_range
-    have hae : a ≠ e := fun h => (List.nodup_append.mp hnd).2.2 a ha e (List.mem_cons_self ..) h
-    have haE : a < T.numEdges := List.mem_range.mp (by rw [hsplit]; exact List.mem_append_left _ ha)
-    simp only [Bool.not_eq_true']
-    by_contra hcon
-    have hpa : (T.chi a == aget M.node m && activeAt T (aget M.pos m) a) = true := by
-      simpa using hcon
-    obtain ⟨g1, g2, g3⟩ := (hp a).mp hpa
-    rcases hNO a e haE heE hae (by rw [g1, h1]) with h | h
-    · exact absurd (lt_of_lt_of_le g3 (le_trans h h2)) (lt_irrefl _)
-    · exact absurd (lt_of_lt_of_le h3 (le_trans h g2)) (lt_irrefl _)
+    specEdge T M m = some e ↔ Above T M m e :=
+  findEdge_iff T (noOverlap_of_B T hO) (aget M.node m) (aget M.pos m) e
 
 /-! ### `mutation_span_array` -/
 
@@ -251,31 +280,34 @@ theorem span_array_agrees (T : Tables α) (M : Muts α) (isSample : Array Bool)
 
 /-! ### What is *not* proved: the full statement -/
 
-/-- Number of `mask` nodes at or below node `u` in the local tree at `pos`, for a *given* descendant
-relation `below pos u v` ("`v` is `u` or a descendant of `u` in the tree at `pos`"). -/
-def samplesBelow (below : α → Nat → Nat → Prop) [∀ p u v, Decidable (below p u v)]
-    (mask : Array Bool) (pos : α) (u : Nat) : Nat :=
-  (List.range mask.size).countP fun v => aget mask v && decide (below pos u v)
+/-- `bs` is a partition of `[0, L]` that contains every edge end point: strictly increasing, from `0`
+to `L`.  The local tree is constant on every `[bs[i], bs[i+1])`; tskit's breakpoints are such a list. -/
+def Partition (T : Tables α) (bs : List α) : Prop :=
+  bs.Pairwise (· < ·) ∧ bs.head? = some 0 ∧ bs.getLast? = some T.seqLen ∧
+  ∀ e, e < T.numEdges → T.l e ∈ bs ∧ T.r e ∈ bs
 
-/-- The full C24 statement for the kernel, including the frequency-weighted variant (the singleton
-blocks of `phasing._block_singletons` belong to the blocks model of C22/C23).  `weights` says what
-the size-biased outputs must be: each mutation weighted by the number of `mask` nodes below its node
-at its position; the span by the sum over the breakpoint intervals `ivs` of
-(samples below the child) × (interval length).  Only the plain part and `mutations_edge` are proved
-(theorems above); the weights are tied by bit-exact correspondence and the per-tree oracle only. -/
+/-- The full C24 statement for the kernel in the frequency-weighted variant (the singleton blocks of
+`phasing._block_singletons` belong to the blocks model of C22/C23): with `samplesBelow T mask pos u` the
+number of `mask` nodes at or below `u` in the local tree at `pos`,
+* each mutation is weighted by the number of `mask` nodes below its node at its position, and
+* each unit of span by the number of `mask` nodes below the edge's child in that local tree: the span
+  is the sum, over the intervals of any partition containing all edge end points, of
+  (samples below the child on that interval) × (interval length) over the intervals the edge covers.
+`times` are node times with every parent strictly older than its child.
+Proved above: the plain variant in full and `mutations_edge` here.  NOT proved: the two weight clauses
+(tied by bit-exact correspondence of the size-biased model and by the per-tree oracle only). -/
 def C24_statement : Prop :=
-  ∀ (T : Tables α) (M : Muts α) (mask : Array Bool)
-    (below : α → Nat → Nat → Prop) [∀ p u v, Decidable (below p u v)]
-    (ivs : List (α × α)),
+  ∀ (T : Tables α) (M : Muts α) (mask : Array Bool) (times : Array α) (bs : List α),
     validB T = true → noOverlapB T = true → nodesBelowB T mask.size = true →
-    mutsOkB M mask.size = true →
+    mutsOkB M mask.size = true → timesOkB T times = true → Partition T bs →
     ∃ s, countMutations T M mask true = some s ∧ s.err = false ∧
       (∀ m, m < M.node.size → ∀ e, aget s.mutEdge m = some e ↔ Above T M m e) ∧
       (∀ e, e < T.numEdges →
         aget s.edgeMuts e = (((List.range M.node.size).filter fun m => decide (Above T M m e)).map
-          fun m => (samplesBelow below mask (aget M.pos m) (aget M.node m) : α)).sum ∧
-        aget s.edgeSpan e = ((ivs.filter fun iv => decide (T.l e ≤ iv.1 ∧ iv.2 ≤ T.r e)).map
-          fun iv => (samplesBelow below mask iv.1 (T.chi e) : α) * (iv.2 - iv.1)).sum)
+          fun m => (samplesBelow T mask (aget M.pos m) (aget M.node m) : α)).sum ∧
+        aget s.edgeSpan e = ((bs.zip bs.tail).map fun iv =>
+          if T.l e ≤ iv.1 ∧ iv.1 < T.r e then (samplesBelow T mask iv.1 (T.chi e) : α) * (iv.2 - iv.1)
+          else 0).sum)
 
 /-! ### Non-vacuity (exact rationals)
 
